@@ -178,8 +178,41 @@ class Parker:
                 self.where = '%s:%d' % (frame.f_code.co_name, frame.f_lineno)
                 self.parked.set()
                 self.wake.set()
-                self.resume.wait(5)
+                self.resume.wait(8)
         return self.local
+
+
+class ScheduleTimeout(BaseException):
+    pass
+
+
+def async_raise(tid, exc):
+    import ctypes
+    ctypes.pythonapi.PyThreadState_SetAsyncExc(ctypes.c_ulong(tid), ctypes.py_object(exc))
+
+
+class Watchdog:
+    """raises ScheduleTimeout in the controller thread when one schedule (or its observation) runs away,
+    e.g. an endless walk over a corrupted ring"""
+    def __init__(self, limit=4.0):
+        self.limit, self.deadline, self.main = limit, None, threading.get_ident()
+        threading.Thread(target=self.loop, daemon=True).start()
+
+    def loop(self):
+        import time
+        while True:
+            time.sleep(0.25)
+            d = self.deadline
+            if d is not None and time.time() > d:
+                self.deadline = None
+                async_raise(self.main, ScheduleTimeout)
+
+    def __enter__(self):
+        import time
+        self.deadline = time.time() + self.limit
+
+    def __exit__(self, *a):
+        self.deadline = None
 
 
 class Worker:
@@ -211,8 +244,24 @@ class Worker:
         return w
 
 
+WD = None
+
+
 def run_schedule(cfg, f1, f2, k, event, mode):
     """returns dict(parked, nevents, where, blocked, held, resA, resB, obs, hung)"""
+    global WD
+    WD = WD or Watchdog()
+    try:
+        with WD:
+            return _run_schedule(cfg, f1, f2, k, event, mode)
+    except ScheduleTimeout:
+        w, Worker.cur = Worker.cur, None
+        if w is not None and not w.done.is_set():
+            async_raise(w.t.ident, SystemExit)        # stop a spinning A; a blocked one just stays parked
+        return dict(parked=True, where='?', blocked=False, held=False, resA=None, resB=None, hung=True)
+
+
+def _run_schedule(cfg, f1, f2, k, event, mode):
     c = cfg.new()
     proxy = None
     lk = getattr(c, '_lock', None)
@@ -240,10 +289,10 @@ def run_schedule(cfg, f1, f2, k, event, mode):
         finally:
             wakeB.set()
     A = Worker.submit(ta)
-    wakeA.wait(20)
+    wakeA.wait(3)
     if not P.parked.is_set():                  # op1 has fewer than k events: enumeration of k is complete
-        if not A.done.wait(20):
-            Worker.cur = None
+        if not A.done.wait(3):
+            raise ScheduleTimeout
         return dict(parked=False, nevents=P.count)
     held = bool(proxy and proxy.owner == A.t.ident)
     B = None
@@ -259,12 +308,12 @@ def run_schedule(cfg, f1, f2, k, event, mode):
         wakeB.wait(FALLBACK_TIMEOUT)
         blocked = 'B' not in res
     P.resume.set()
-    hung = not A.done.wait(20)
+    hung = not A.done.wait(3)
     if B:
-        B.join(20)
+        B.join(3)
         hung = hung or B.is_alive()
     if hung:
-        Worker.cur = None
+        raise ScheduleTimeout
     out = dict(parked=True, where=P.where, blocked=blocked, held=held, resA=res.get('A'), resB=res.get('B'), hung=hung)
     if not hung:
         out['obs'] = observe(c, mode)
@@ -290,10 +339,16 @@ def lock_regions(cfg, f):
 
 
 def sequential(cfg, fa, fb, mode):
-    c = cfg.new()
-    ra = outcome(lambda: fa(c))
-    rb = outcome(lambda: fb(c))
-    return ra, rb, observe(c, mode)
+    global WD
+    WD = WD or Watchdog()
+    try:
+        with WD:
+            c = cfg.new()
+            ra = outcome(lambda: fa(c))
+            rb = outcome(lambda: fb(c))
+            return ra, rb, observe(c, mode)
+    except ScheduleTimeout:
+        return ('exc', 'runs away'), ('exc', 'runs away'), []
 
 
 def describe(obs):
@@ -415,8 +470,8 @@ def run():
                         site = 'LRU.__getitem__'
                     wcl = 'overlaps an operation of another thread on the same cache'
                     if r1['hung'] or r2.get('hung') or not r2['parked']:
-                        H.fail('no_deadlock', site, wcl, wit, 'threads did not finish / schedule not reproducible: %r %r' % (r1, r2))
-                        continue
+                        H.fail('no_deadlock', site, wcl, wit, 'threads did not finish (or ran away) within the time limit: %r %r' % (r1, r2))
+                        break                     # one hang per op pair is enough; each costs seconds
                     got = tuple((r['resA'], r['resB'], r['obs']) for r in ((r1, r2) if len(modes) > 1 else (r1,)))
                     if got in allowed:
                         continue
